@@ -27,16 +27,20 @@ PREV = 'self.previous'
 
 
 class Tok:
-    __slots__ = ('kind', 'site', 'done', 'holders', 'entry', 'fn')
+    __slots__ = ('kind', 'site', 'done', 'holders', 'entry', 'stale', 'merged')
 
     def __init__(self, kind: T.Any, site: T.Optional[ast.AST], done: bool, holders: T.Set[str], entry: bool = False):
         self.kind, self.site, self.done, self.holders, self.entry = kind, site, done, holders, entry
+        self.stale: T.Optional[ast.AST] = None   # what claimed the whitespace that follows this token before its own node was built
+        self.merged = False                      # other token text was merged into this one (whitespace handled explicitly)
 
     def copy(self) -> 'Tok':
-        return Tok(self.kind, self.site, self.done, set(self.holders), self.entry)
+        t = Tok(self.kind, self.site, self.done, set(self.holders), self.entry)
+        t.stale, t.merged = self.stale, self.merged
+        return t
 
     def sig(self) -> T.Any:
-        return (repr(self.kind), id(self.site), self.done, tuple(sorted(self.holders)), self.entry)
+        return (repr(self.kind), id(self.site), self.done, tuple(sorted(self.holders)), self.entry, id(self.stale), self.merged)
 
 
 class Res:
@@ -190,11 +194,15 @@ class Analyzer:
                 if not (w.body and norm(w.body[0]) == 'self.current_ws.append(self.current)'):
                     continue
                 for st in w.body[1:]:
-                    if isinstance(st, ast.If) and isinstance(st.test, ast.Compare) and norm(st.test.left) == 'self.current.tid' \
-                            and isinstance(st.test.ops[0], ast.Eq) and any(isinstance(b, ast.Break) for b in st.body):
-                        k = fold_expr(self.repo, self.mod, st.test.comparators[0])
-                        if k in ws_kinds:
-                            out.add(k)
+                    if isinstance(st, ast.If) and isinstance(st.test, ast.Compare) and len(st.test.ops) == 1 and any(isinstance(b, ast.Break) for b in st.body):
+                        l, r_ = st.test.left, st.test.comparators[0]
+                        if norm(r_) == 'self.current.tid':
+                            l, r_ = r_, l
+                        if norm(l) != 'self.current.tid' or not isinstance(st.test.ops[0], (ast.Eq, ast.In)):
+                            continue
+                        k = fold_expr(self.repo, self.mod, r_)
+                        ks = [k] if isinstance(st.test.ops[0], ast.Eq) else list(k)
+                        out |= {x for x in ks if x in ws_kinds}
         for h in ast.walk(fn):
             if isinstance(h, ast.ExceptHandler):
                 for st in h.body:
@@ -445,7 +453,8 @@ class Analyzer:
                             b = attr_chain(x.value)
                             tj = st.tok_of(b) if b else None
                             if tj is not None and tj != ti:
-                                self.materialise(tj, st, value)
+                                self.materialise(tj, st, value, check_late=False)
+                                st.toks[ti].merged = True
                 return [s2 for s2, _ in self.ev(value, st)] if self._effectful(value) else [st]
             out = []
             for s2, v in self.ev(value, st):
@@ -513,8 +522,18 @@ class Analyzer:
         if j != ri:
             st.res[j].vac = False
 
-    def materialise(self, i: int, st: St, node: ast.AST) -> None:
+    def _age(self, st: St, by: ast.AST, keep: T.Sequence[int] = ()) -> None:
+        """`by` (a stream advance or a node built through the wrapper) takes over the whitespace collected so far: tokens still
+        waiting for their own node have lost the whitespace that followed them."""
+        for i, t in enumerate(st.toks):
+            if not t.done and t.stale is None and i not in keep:
+                t.stale = by
+
+    def materialise(self, i: int, st: St, node: ast.AST, check_late: bool = True) -> None:
         t = st.toks[i]
+        if check_late and not t.done and t.stale is not None and not t.merged:
+            self.note_extra('late node', node, f'`{short(node)}` builds the node of the token {self._k(t.kind)} only after `{short(t.stale)}` ran: the whitespace/'
+                                              f'comments that follow the token in the text were already attached to (or collected for) something else and are replayed out of place')
         if t.done:
             self.note_extra('attached twice', node, f'`{short(node)}` attaches a token that is already attached to the tree (it would be printed twice)')
             return
@@ -681,6 +700,8 @@ class Analyzer:
         if len(vals) > len(roles):
             raise Undecided(f'{self.cls}.{self.fn}: `{short(node)}` passes more arguments than {cls}.__init__ takes')
         fixed = self.fixed.get(cls)
+        if fixed == '?':
+            raise Undecided(f'{self.cls}.{self.fn}: how the printer spells a {cls} is decided in a helper that is not followed')
         carries = wrapped
         for (pname, role), v in zip(roles, vals):
             if role == 'tok' and fixed is None:
@@ -710,6 +731,8 @@ class Analyzer:
                 raise Undecided(f'{self.cls}.{self.fn}: `{short(node)}` stands for the keyword `{fixed}` consumed by the caller')
             else:
                 self.note_extra('keyword node without keyword', node, f'`{short(node)}` is replayed as `{fixed}` but no `{fixed}` token is pending here')
+        if wrapped:
+            self._age(st, node)
         if wrapped and cls in self.free:
             self.note_extra('carrier-free via wrapper', node, f'`{short(node)}` attaches pending whitespace to a {cls}, which callers drop')
         st.res.append(Res(node, cls, not carries, set()))
@@ -767,6 +790,7 @@ class Analyzer:
                     t.done = True
 
     def consume(self, st: St, node: ast.AST, kind: T.Any) -> None:
+        self._age(st, node)
         self._clobber(st, node)
         st.toks.append(Tok(kind, node, st.N or self.is_exempt(kind), {PREV} | st.cur))
         st.N = False
@@ -800,6 +824,10 @@ class Analyzer:
                         # a tree method attaches everything it consumes itself: the pre-attached token is attached again
                         self.note_extra('attached twice', e, f'`{short(e)}` consumes and attaches the token that was already attached before the call')
                         s.N = False
+                    if o.entry != 'discharged':
+                        self._age(s, e)
+                    else:
+                        self._age(s, e, keep=[pi] if pi is not None else [])
                     self._clobber(s, e)
                     kind = o.kind
                     if isinstance(kind, tuple) and kind and kind[0] == 'param':
